@@ -2,20 +2,42 @@
 //
 // Each case runs a real client-side netmc.MinecraftConn (protocol >= 764) over a buffered
 // in-memory connection. 1-8 writer goroutines write play-only packets (SystemChat carrying
-// "V<writer>:<seq>;") and config-valid packets (KeepAlive carrying magic|writer|seq) while
-// a controller toggles the connection config <-> play. Before each SetState(Play) the
-// controller writes a config-valid "finish" marker, exactly where the proxy writes
-// FinishedUpdate. The fake client parses the raw frames it received and an offline checker
-// decides the run:
+// "V<writer>:<seq>;"), packets valid in the configuration phase in both directions (KeepAlive
+// carrying magic|writer|seq) and typed packets valid in the configuration phase for the
+// CLIENTBOUND direction only (Disconnect, ResourcePackRequest, CookieStore, Transfer,
+// ServerLinks ... carrying "cv<writer>-<seq>-", enumerated from Gate's registry per protocol,
+// see cvpackets_test.go) while a controller toggles the connection config <-> play:
+//
+//   - the phase is entered the login way (SetState(Config)) or through the real
+//     connectedPlayer.switchToConfigState (outbound state only, as on a server switch);
+//   - in most phases it is entered a SECOND time without leaving it, at a PRNG-chosen moment
+//     while the writers keep writing: the client's acknowledgement of a server switch
+//     (SwitchSessionHandler(Config) / SetState(Config), what
+//     clientPlaySessionHandler.handleFinishedUpdate does on the client connection), or on the
+//     login path a redundant EnablePlayPacketQueue / SetOutboundState(Config) / SetState(Config);
+//   - inside the phase the controller writes typed packets that exist in the configuration
+//     phase only (RegistrySync, TagsUpdate, ActiveFeatures, DialogShow, CodeOfConduct);
+//   - before leaving, the controller writes a config-valid "finish" marker, exactly where the
+//     proxy writes FinishedUpdate, then SetState(Play) / SetOutboundState(Play) (followed, in
+//     the real mode, by SetActiveSessionHandler(Play): the client's FinishedUpdate);
+//   - a fifth of the cases end with a kick during configuration: the phase is entered once more
+//     and netmc.CloseWith writes a Disconnect and closes the connection.
+//
+// The fake client parses the raw frames it received and an offline checker decides the run:
 //
 //	L  no-loss/no-dup: every write that returned nil appears exactly once in the stream
+//	   (after a final kick: every config-valid write that returned before the kick began, and
+//	   every play-only write that returned before the last phase was entered)
 //	O  per writer, play-only packets appear in write order
 //	H  held: a play-only packet whose write began after SetState(Config) returned and
 //	   returned before the finish marker was written appears after that marker
 //	B  before-later: a play packet whose write began after SetState(Play) returned appears
 //	   after every packet held in the preceding configuration phase
-//	I  immediate: a config-valid packet whose write returned before the finish marker was
-//	   written appears before the marker
+//	I  immediate: a config-valid packet (either kind) whose write returned before the finish
+//	   marker was written appears before the marker
+//	K  kick: the Disconnect written by CloseWith during configuration is on the wire when the
+//	   connection has been closed, after the config-valid packets written before it; no
+//	   play-only packet of that last phase is delivered
 //	Q  bounded: with more than 1024 packets held, the overflowing write reports an error
 //	   and the connection is closed (never a silent drop)
 //
@@ -66,29 +88,62 @@ func (nopHandler) Activated()                         {}
 func (nopHandler) Deactivated()                       {}
 
 type wrec struct {
-	Writer int   `json:"w"`
-	Seq    int   `json:"seq"`
-	Play   bool  `json:"play_only"`
-	Call   int64 `json:"call"`
-	Ret    int64 `json:"ret"`
+	Writer int    `json:"w"`
+	Seq    int    `json:"seq"`
+	Play   bool   `json:"play_only"`
+	Type   string `json:"type,omitempty"` // typed clientbound-only config packet
+	Call   int64  `json:"call"`
+	Ret    int64  `json:"ret"`
 	Err    string `json:"err,omitempty"`
 }
 
 type phase struct {
-	Real       bool  // entered through the real connectedPlayer.switchToConfigState
-	CfgRet     int64 // SetState(Config) returned
-	MarkCall   int64 // finish marker write called
-	MarkSeq    int
-	PlayCall   int64 // SetState(Play) called
-	PlayRet    int64 // SetState(Play) returned
+	Real     bool   // entered through the real connectedPlayer.switchToConfigState
+	CfgRet   int64  // SetState(Config) returned
+	Reentry  string // the configuration phase was entered a second time without leaving it: how
+	ReCall   int64  // second entry called
+	ReRet    int64  // second entry returned
+	MarkCall int64  // finish marker write called
+	MarkSeq  int
+	PlayCall int64 // SetState(Play) called
+	PlayRet  int64 // SetState(Play) returned
+}
+
+// finalKick: the case ends with a kick during configuration: the connection enters the
+// configuration phase once more and netmc.CloseWith writes a Disconnect (valid in the
+// configuration phase, clientbound only) and closes the connection.
+type finalKick struct {
+	Present  bool
+	Reentry  string
+	CfgCall  int64
+	CfgRet   int64
+	KickCall int64
+	KickRet  int64
+}
+
+type stats struct {
+	held, direct, racing, markers int64
+	heldAcrossReentry             int64
+	reentries                     map[string]int64
+	typedDelivered                map[string]int64 // per type: write returned nil and the client received it
+	typedInConfig                 map[string]int64 // per type: written wholly inside a configuration phase, seen before its finish marker
+	kicks, kickFramesSeen         int64
+	cvBeforeKick                  int64
 }
 
 var playRe = regexp.MustCompile(`V(\d+):(\d+);`)
+
+// marker of a typed config-valid packet (see cvpackets_test.go); writer 0xFFFE is the final
+// Disconnect of a kick during configuration
+var cvRe = regexp.MustCompile(`cv(\d+)-(\d+)-`)
+
+const kickWriter = 0xFFFE
 
 type item struct {
 	play   bool
 	marker bool
 	start  bool // StartUpdate: the client enters the configuration phase when it reads this
+	kick   bool // the Disconnect of a kick during configuration (CloseWith)
 	w, seq int
 }
 
@@ -110,6 +165,12 @@ func parseStream(b []byte, startID int) (items []item, ok bool) {
 			items = append(items, item{play: true, w: w, seq: s})
 			continue
 		}
+		if m := cvRe.FindSubmatch(body); m != nil {
+			w, _ := strconv.Atoi(string(m[1]))
+			s, _ := strconv.Atoi(string(m[2]))
+			items = append(items, item{w: w, seq: s, kick: w == kickWriter})
+			continue
+		}
 		if len(body) >= 9 {
 			v := binary.BigEndian.Uint64(body[len(body)-8:])
 			if v&(uint64(0xFFFF)<<48) == kaMagic {
@@ -127,12 +188,14 @@ func kaID(w, seq int) int64 { return int64(kaMagic | uint64(w)<<32 | uint64(uint
 func TestC14(t *testing.T) {
 	r := lib.Start(t, "C14")
 	defer r.Finish()
-	r.Rule("one case = one real MinecraftConn (protocol 764..775, client side) with 1-8 writer goroutines mixing play-only (SystemChat) and config-valid (KeepAlive) packets through WritePacket/BufferPacket while a controller toggles config<->play 1-5 times with PRNG-chosen yields and a stalling client pipe; plus overflow cases holding 1000..1100 packets; distinct = distinct (writers, toggles, per-phase counts of held / direct / racing packets observed)")
+	r.Rule("one case = one real MinecraftConn (protocol 764..775, client side) with 1-8 writer goroutines mixing play-only (SystemChat), config-valid-both-directions (KeepAlive) and typed clientbound-only config-valid packets (enumerated from Gate's registry per protocol: Disconnect, ResourcePackRequest, CookieStore, Transfer, ServerLinks ...) through WritePacket/BufferPacket while a controller toggles config<->play 1-5 times with PRNG-chosen yields and a stalling client pipe; the controller enters the phase the login way (SetState) or through the real switchToConfigState, in most phases enters it a second time without leaving (the client's acknowledgement SwitchSessionHandler(Config)/SetState(Config) of a server switch; a redundant EnablePlayPacketQueue/SetOutboundState(Config) on the login path), writes config-only typed packets (RegistrySync, TagsUpdate, DialogShow ...) inside the phase, and in a fifth of the cases ends with a kick during configuration (netmc.CloseWith(Disconnect)); plus overflow cases holding 1000..1100 packets; distinct = distinct (writers, toggles, entry mode, per-phase counts of held / direct / racing packets observed)")
 	r.Assume("the fake client identifies packets by markers embedded in their payload, independent of Gate's decoder")
+	r.Assume("which packet types are valid in the configuration phase for the clientbound direction only is taken from Gate's registry by the workload generator; the oracle only sees markers, stamps and stream positions")
 	rng := r.Rng("cases")
-	n := r.N(1500, 60000)
+	n := r.N(1200, 60000)
 	protos := []proto.Protocol{764, 765, 766, 767, 768, 769, 770, 771, 772, 773, 774, 775}
-	var heldTotal, directTotal, racingTotal, overflowCases, markersSeen int64
+	st := &stats{reentries: map[string]int64{}, typedDelivered: map[string]int64{}, typedInConfig: map[string]int64{}}
+	var overflowCases int64
 	var realSwitchCases, realSwitches int64
 	pcfg := config.DefaultConfig
 	px, perr := proxy.New(proxy.Options{Config: &pcfg})
@@ -140,6 +203,31 @@ func TestC14(t *testing.T) {
 		t.Fatalf("proxy.New: %v", perr)
 	}
 	sigs := map[string]struct{}{}
+
+	// typed packets valid in the configuration phase for the clientbound direction only
+	cvSets := map[proto.Protocol]cvSet{}
+	typesPerProto := map[string]any{}
+	noField := map[string]struct{}{}
+	for _, pv := range protos {
+		set, enumerated := cvTypesFor(pv)
+		if enumerated == 0 || len(set.AnyPhase) == 0 || len(set.ConfigOnly) == 0 {
+			// no evaluation has happened yet: the run ends with NO-OBSERVATIONS (exit 3)
+			fmt.Printf("INCONCLUSIVE property=C14 protocol %d: %d clientbound-only config packet types registered, %d any-phase and %d config-only could be built: the generator does not know Gate's registry any more\n", pv, enumerated, len(set.AnyPhase), len(set.ConfigOnly))
+			t.Fatalf("protocol %d: cannot build clientbound-only config packets (enumerated %d)", pv, enumerated)
+		}
+		cvSets[pv] = set
+		var names []string
+		for _, ty := range set.AnyPhase {
+			names = append(names, ty.Name)
+		}
+		for _, ty := range set.ConfigOnly {
+			names = append(names, ty.Name+"(config-only)")
+		}
+		typesPerProto[strconv.Itoa(int(pv))] = names
+		for _, nf := range set.NoField {
+			noField[nf] = struct{}{}
+		}
+	}
 
 	for ci := 0; ci < n; ci++ {
 		pv := protos[rng.Intn(len(protos))]
@@ -153,8 +241,13 @@ func TestC14(t *testing.T) {
 		// triggers) and left through SetOutboundState(Play) (what the client config handler does),
 		// instead of the plain SetState(Config)/SetState(Play) of the login path
 		realSwitch := !overflow && rng.Intn(2) == 0
-		desc := map[string]any{"protocol": int(pv), "writers": nw, "toggles": toggles, "per_writer": perWriter, "overflow": overflow, "stall": stall, "real_switch": realSwitch}
+		// reenter: phases of this case may enter the configuration phase a second time
+		reenter := !overflow && rng.Intn(4) != 0
+		// kick: the case ends with a kick during configuration
+		kick := !overflow && rng.Intn(5) == 0
+		desc := map[string]any{"protocol": int(pv), "writers": nw, "toggles": toggles, "per_writer": perWriter, "overflow": overflow, "stall": stall, "real_switch": realSwitch, "reenter": reenter, "kick": kick}
 		r.LogCase(desc)
+		cvs := cvSets[pv]
 
 		proxyEnd, client := lib.Pipe()
 		if stall {
@@ -172,6 +265,8 @@ func TestC14(t *testing.T) {
 		conn, _ := netmc.NewMinecraftConn(context.Background(), proxyEnd, proto.ServerBound, 30*time.Second, 30*time.Second, -1, nil)
 		conn.SetProtocol(pv)
 		conn.SetActiveSessionHandler(state.Play, nopHandler{})
+		// the client connection of a 1.20.2+ player keeps its configuration handler registered
+		conn.AddSessionHandler(state.Config, nopHandler{})
 		startID := -1
 		var pl *proxy.VerifC11Player
 		if realSwitch {
@@ -191,6 +286,7 @@ func TestC14(t *testing.T) {
 		var mu sync.Mutex
 		var recs []wrec
 		var phases []phase
+		var fin finalKick
 
 		if overflow {
 			overflowCases++
@@ -233,7 +329,7 @@ func TestC14(t *testing.T) {
 			_ = conn.Close()
 			<-recvDone
 			if total <= 1024 {
-				checkStream(r, desc, startID, recvBuf.Bytes(), recs, phases, &heldTotal, &directTotal, &racingTotal, &markersSeen)
+				checkStream(r, desc, startID, recvBuf.Bytes(), recs, phases, fin, st)
 			}
 			r.Distinct(fmt.Sprintf("overflow total=%d", total))
 			continue
@@ -252,17 +348,27 @@ func TestC14(t *testing.T) {
 					for y := wrng.Intn(5); y > 0; y-- {
 						runtime.Gosched()
 					}
-					play := wrng.Intn(4) != 0
+					play := wrng.Intn(3) != 0
 					var p proto.Packet
 					rec := wrec{Writer: w, Play: play}
-					if play {
+					switch {
+					case play:
 						rec.Seq = ps
 						ps++
 						p = &chat.SystemChat{Type: chat.SystemMessageType, Component: &chat.ComponentHolder{Protocol: pv, Component: &component.Text{Content: fmt.Sprintf("V%d:%d;", w, rec.Seq)}}}
-					} else {
+					case wrng.Intn(3) == 0:
+						// valid in the configuration phase in both directions
 						rec.Seq = cs
 						cs++
 						p = &packet.KeepAlive{RandomID: kaID(w, rec.Seq)}
+					default:
+						// valid in the configuration phase for the clientbound direction only
+						// (and in play, so it can be written at any moment)
+						rec.Seq = cs
+						cs++
+						ty := cvs.AnyPhase[wrng.Intn(len(cvs.AnyPhase))]
+						rec.Type = ty.Name
+						p = ty.build(pv, w, rec.Seq)
 					}
 					rec.Call = clock.Add(1)
 					var err error
@@ -286,20 +392,92 @@ func TestC14(t *testing.T) {
 		go func() {
 			defer close(ctlDone)
 			<-start
-			for tg := 0; tg < toggles; tg++ {
-				for y := crng.Intn(40); y > 0; y-- {
+			yield := func(max int) {
+				for y := crng.Intn(max); y > 0; y-- {
 					runtime.Gosched()
 				}
+			}
+			enter := func() {
 				if realSwitch {
 					pl.SwitchToConfigState()
 					atomic.AddInt64(&realSwitches, 1)
 				} else {
 					conn.SetState(state.Config)
 				}
-				ph := phase{CfgRet: clock.Add(1), MarkSeq: tg, Real: realSwitch}
-				for y := crng.Intn(60); y > 0; y-- {
-					runtime.Gosched()
+			}
+			// second entry into the configuration phase without leaving it
+			reentry := func() string {
+				var kinds []string
+				if realSwitch {
+					// the client acknowledged StartUpdate: what
+					// clientPlaySessionHandler.handleFinishedUpdate does on the client connection
+					kinds = []string{"ack:SwitchSessionHandler(Config)", "ack:SwitchSessionHandler(Config)", "ack:SetState(Config)"}
+				} else {
+					// the login path: SetState(Config) came first, something enables the queue again
+					kinds = []string{"login:EnablePlayPacketQueue", "login:SetOutboundState(Config)", "login:SetState(Config)", "login:SwitchSessionHandler(Config)"}
 				}
+				k := kinds[crng.Intn(len(kinds))]
+				switch k {
+				case "ack:SwitchSessionHandler(Config)", "login:SwitchSessionHandler(Config)":
+					if !conn.SwitchSessionHandler(state.Config) {
+						panic("c14: no configuration handler registered")
+					}
+				case "ack:SetState(Config)", "login:SetState(Config)":
+					conn.SetState(state.Config)
+				case "login:EnablePlayPacketQueue":
+					conn.EnablePlayPacketQueue()
+				case "login:SetOutboundState(Config)":
+					conn.SetOutboundState(state.Config)
+				}
+				return k
+			}
+			c0 := 0
+			// a typed packet valid in the configuration phase only (clientbound), written by the
+			// controller, which knows that the outbound state is Config
+			writeCfgOnly := func() {
+				ty := cvs.ConfigOnly[crng.Intn(len(cvs.ConfigOnly))]
+				rec := wrec{Writer: 0, Seq: c0, Type: ty.Name}
+				c0++
+				p := ty.build(pv, 0, rec.Seq)
+				rec.Call = clock.Add(1)
+				var err error
+				if crng.Intn(2) == 0 {
+					err = conn.WritePacket(p)
+				} else {
+					err = conn.BufferPacket(p)
+				}
+				rec.Ret = clock.Add(1)
+				if err != nil {
+					rec.Err = err.Error()
+				}
+				mu.Lock()
+				recs = append(recs, rec)
+				mu.Unlock()
+			}
+			for tg := 0; tg < toggles; tg++ {
+				yield(40)
+				enter()
+				ph := phase{CfgRet: clock.Add(1), MarkSeq: tg, Real: realSwitch}
+				// inside the phase, in PRNG order: the second entry, and 0-2 config-only typed packets
+				acts := make([]int, 0, 3)
+				if reenter && crng.Intn(5) != 0 {
+					acts = append(acts, 0)
+				}
+				for k := crng.Intn(3); k > 0; k-- {
+					acts = append(acts, 1)
+				}
+				crng.Shuffle(len(acts), func(i, j int) { acts[i], acts[j] = acts[j], acts[i] })
+				for _, a := range acts {
+					yield(30)
+					if a == 0 {
+						ph.ReCall = clock.Add(1)
+						ph.Reentry = reentry()
+						ph.ReRet = clock.Add(1)
+						continue
+					}
+					writeCfgOnly()
+				}
+				yield(30)
 				ph.MarkCall = clock.Add(1)
 				_ = conn.WritePacket(&packet.KeepAlive{RandomID: kaID(0xFFFF, tg)})
 				ph.PlayCall = clock.Add(1)
@@ -311,6 +489,33 @@ func TestC14(t *testing.T) {
 				ph.PlayRet = clock.Add(1)
 				mu.Lock()
 				phases = append(phases, ph)
+				mu.Unlock()
+				if realSwitch {
+					// the client acknowledges the end of the configuration phase: what
+					// clientConfigSessionHandler does on the client's FinishedUpdate
+					yield(10)
+					conn.SetActiveSessionHandler(state.Play, nopHandler{})
+				}
+			}
+			if kick {
+				yield(40)
+				f := finalKick{Present: true, CfgCall: clock.Add(1)}
+				enter()
+				f.CfgRet = clock.Add(1)
+				if reenter && crng.Intn(2) == 0 {
+					yield(20)
+					f.Reentry = reentry()
+				}
+				for k := crng.Intn(3); k > 0; k-- {
+					yield(20)
+					writeCfgOnly()
+				}
+				yield(40)
+				f.KickCall = clock.Add(1)
+				_ = netmc.CloseWith(conn, &packet.Disconnect{Reason: textHolder(pv, cvMarker(kickWriter, 0))})
+				f.KickRet = clock.Add(1)
+				mu.Lock()
+				fin = f
 				mu.Unlock()
 			}
 		}()
@@ -324,27 +529,41 @@ func TestC14(t *testing.T) {
 		_ = conn.Flush()
 		_ = conn.Close()
 		<-recvDone
-		sig := checkStream(r, desc, startID, recvBuf.Bytes(), recs, phases, &heldTotal, &directTotal, &racingTotal, &markersSeen)
+		sig := checkStream(r, desc, startID, recvBuf.Bytes(), recs, phases, fin, st)
 		sigs[sig] = struct{}{}
-		r.Distinct(fmt.Sprintf("w=%d t=%d %s", nw, toggles, sig))
+		r.Distinct(fmt.Sprintf("w=%d t=%d real=%v kick=%v %s", nw, toggles, realSwitch, kick, sig))
 		if r.WantSample() {
 			r.Sample(map[string]any{"case": desc, "observed": sig, "writes": len(recs)})
 		}
 	}
-	r.Set("play_packets_held_and_released", heldTotal)
-	r.Set("packets_written_directly", directTotal)
-	r.Set("packets_racing_a_state_change", racingTotal)
-	r.Set("finish_markers_seen", markersSeen)
+	r.Set("play_packets_held_and_released", st.held)
+	r.Set("packets_written_directly", st.direct)
+	r.Set("packets_racing_a_state_change", st.racing)
+	r.Set("finish_markers_seen", st.markers)
 	r.Set("overflow_cases", overflowCases)
 	r.Set("cases_entering_config_through_real_switchToConfigState", realSwitchCases)
 	r.Set("real_switchToConfigState_calls", realSwitches)
 	r.Set("StartUpdate_frames_seen_by_client", startsSeen)
 	r.Set("writes_that_failed_although_the_peer_accepts_everything", writeErrs)
 	r.Set("distinct_observation_signatures", len(sigs))
+	r.Set("clientbound_only_config_types_per_protocol", typesPerProto)
+	var nf []string
+	for k := range noField {
+		nf = append(nf, k)
+	}
+	sort.Strings(nf)
+	r.Set("clientbound_only_config_types_without_a_marker_field_not_written", nf)
+	r.Set("clientbound_only_config_packets_delivered_per_type", st.typedDelivered)
+	r.Set("clientbound_only_config_packets_written_inside_a_config_phase_and_seen_before_its_finish_marker_per_type", st.typedInConfig)
+	r.Set("phases_entering_config_a_second_time_per_kind", st.reentries)
+	r.Set("play_packets_held_before_a_second_entry_and_released_after_the_phase", st.heldAcrossReentry)
+	r.Set("kicks_during_configuration", st.kicks)
+	r.Set("kick_disconnect_frames_seen_by_client", st.kickFramesSeen)
+	r.Set("config_valid_packets_written_in_the_final_phase_seen_before_the_kick", st.cvBeforeKick)
 }
 
 // checkStream is the offline checker over one run.
-func checkStream(r *lib.Run, desc map[string]any, startID int, stream []byte, recs []wrec, phases []phase, held, direct, racing, markers *int64) string {
+func checkStream(r *lib.Run, desc map[string]any, startID int, stream []byte, recs []wrec, phases []phase, fin finalKick, st *stats) string {
 	items, ok := parseStream(stream, startID)
 	if !ok {
 		r.Violation("client-stream-corrupt", "the client-side byte stream is not a sequence of whole frames", desc)
@@ -360,10 +579,22 @@ func checkStream(r *lib.Run, desc map[string]any, startID int, stream []byte, re
 			}
 		}
 		m := map[string]any{"case": desc, "phases": fmt.Sprintf("%+v", phases), "write_errors": errs, "frames_received": len(items)}
+		if fin.Present {
+			m["final_kick"] = fmt.Sprintf("%+v", fin)
+		}
 		for k, v := range extra {
 			m[k] = v
 		}
 		return m
+	}
+	kindOf := func(rc wrec) string {
+		switch {
+		case rc.Play:
+			return "play-only"
+		case rc.Type != "":
+			return "config-valid-clientbound-only"
+		}
+		return "config-valid"
 	}
 	// S (client's view): the client is in the configuration phase from the StartUpdate frame it
 	// reads until the finish marker; a play-only packet positioned in between reaches a client
@@ -380,30 +611,37 @@ func checkStream(r *lib.Run, desc map[string]any, startID int, stream []byte, re
 			r.Violation("play-packet-on-the-wire-between-StartUpdate-and-finish", fmt.Sprintf("play-only packet w%d#%d sits at stream position %d, after the StartUpdate at position %d and before the end of that configuration phase", it.w, it.seq, i, inCfg), wit(nil))
 		}
 	}
-	// E: the peer accepts every byte, nothing closes the connection and no queue overflows in
-	// these cases, so a write that reports an error was refused by Gate itself (a play-only
-	// packet handed to the configuration-state encoder instead of being held) and is lost
+	// E: the peer accepts every byte, nothing closes the connection (before the final kick, if
+	// any) and no queue overflows in these cases, so a write that reports an error was refused
+	// by Gate itself (a play-only packet handed to the configuration-state encoder instead of
+	// being held) and is lost
 	firstErr := wrec{Ret: -1}
 	for _, rc := range recs {
+		if fin.Present && rc.Ret > fin.KickCall {
+			continue // may have met the closed connection
+		}
 		if rc.Err != "" && (firstErr.Ret < 0 || rc.Ret < firstErr.Ret) {
 			firstErr = rc
 		}
 	}
 	if firstErr.Ret >= 0 && desc["overflow"] != true {
 		atomic.AddInt64(&writeErrs, 1)
-		kind := "config-valid"
-		if firstErr.Play {
-			kind = "play-only"
-		}
-		r.Violation("write-refused-without-fault:"+kind, fmt.Sprintf("write of %s packet w%d#%d failed with %q although the peer accepts everything and nothing closed the connection", kind, firstErr.Writer, firstErr.Seq, firstErr.Err), wit(map[string]any{"write": firstErr}))
+		kind := kindOf(firstErr)
+		r.Violation("write-refused-without-fault:"+kind, fmt.Sprintf("write of %s packet w%d#%d %s failed with %q although the peer accepts everything and nothing closed the connection", kind, firstErr.Writer, firstErr.Seq, firstErr.Type, firstErr.Err), wit(map[string]any{"write": firstErr}))
 	}
+	kickPos := -1
 	for i, it := range items {
 		if it.start {
 			continue
 		}
 		if it.marker {
 			markPos[it.seq] = i
-			*markers++
+			st.markers++
+			continue
+		}
+		if it.kick {
+			kickPos = i
+			st.kickFramesSeen++
 			continue
 		}
 		c := 0
@@ -413,22 +651,30 @@ func checkStream(r *lib.Run, desc map[string]any, startID int, stream []byte, re
 		k := [3]int{c, it.w, it.seq}
 		pos[k] = append(pos[k], i)
 	}
+	cls := func(rc wrec) int {
+		if rc.Play {
+			return 1
+		}
+		return 0
+	}
 	// L: loss / duplication
 	for _, rc := range recs {
-		c := 0
-		if rc.Play {
-			c = 1
-		}
-		ps := pos[[3]int{c, rc.Writer, rc.Seq}]
+		ps := pos[[3]int{cls(rc), rc.Writer, rc.Seq}]
 		if rc.Err == "" && len(ps) == 0 {
-			kind := "config-valid"
-			if rc.Play {
-				kind = "play-only"
+			// a kick during configuration ends the connection: play-only packets that may have
+			// been held in that last phase, and anything not written before the kick began,
+			// have no claim to delivery
+			if fin.Present && ((rc.Play && rc.Ret > fin.CfgCall) || rc.Ret > fin.KickCall) {
+				continue
 			}
-			r.Violation("packet-lost:"+kind, fmt.Sprintf("write of %s packet w%d#%d returned nil but the client never received it", kind, rc.Writer, rc.Seq), wit(map[string]any{"write": rc}))
+			kind := kindOf(rc)
+			r.Violation("packet-lost:"+kind, fmt.Sprintf("write of %s packet w%d#%d %s returned nil but the client never received it", kind, rc.Writer, rc.Seq, rc.Type), wit(map[string]any{"write": rc}))
 		}
 		if len(ps) > 1 {
 			r.Violation("packet-duplicated", fmt.Sprintf("packet w%d#%d delivered %d times", rc.Writer, rc.Seq, len(ps)), wit(map[string]any{"write": rc}))
+		}
+		if rc.Type != "" && rc.Err == "" && len(ps) == 1 {
+			st.typedDelivered[rc.Type]++
 		}
 	}
 	// O: per-writer order of play-only packets
@@ -442,17 +688,49 @@ func checkStream(r *lib.Run, desc map[string]any, startID int, stream []byte, re
 		}
 		last[it.w] = [2]int{it.seq, i}
 	}
+	// K: a kick during configuration. The Disconnect is valid in the configuration phase, so it
+	// is written immediately: it is on the wire when CloseWith has closed the connection, after
+	// every config-valid packet whose write returned before the kick began; no play-only packet
+	// written in that last phase reaches the client
+	if fin.Present {
+		st.kicks++
+		if kickPos < 0 {
+			r.Violation("kick-during-config-disconnect-not-on-the-wire", "netmc.CloseWith(Disconnect) during the configuration phase closed the connection without the Disconnect reaching the client", wit(nil))
+		}
+		for _, rc := range recs {
+			if rc.Err != "" || rc.Call < fin.CfgRet {
+				continue
+			}
+			ps := pos[[3]int{cls(rc), rc.Writer, rc.Seq}]
+			if rc.Play {
+				if len(ps) > 0 {
+					r.Violation("play-packet-delivered-during-config", fmt.Sprintf("play-only packet w%d#%d written in the final configuration phase (ended by a kick) was delivered", rc.Writer, rc.Seq), wit(map[string]any{"write": rc}))
+				}
+				continue
+			}
+			if rc.Ret < fin.KickCall && len(ps) == 1 && kickPos >= 0 {
+				st.cvBeforeKick++
+				if ps[0] > kickPos {
+					r.Violation("config-packet-delayed", fmt.Sprintf("%s packet w%d#%d %s written during the final configuration phase appears after the kick's Disconnect", kindOf(rc), rc.Writer, rc.Seq, rc.Type), wit(map[string]any{"write": rc}))
+				}
+			}
+		}
+	}
 	sort.Slice(phases, func(i, j int) bool { return phases[i].CfgRet < phases[j].CfgRet })
 	var nHeld, nDirect, nRacing int
+	for _, ph := range phases {
+		if ph.Reentry != "" {
+			st.reentries[ph.Reentry]++
+		}
+	}
+	if fin.Reentry != "" {
+		st.reentries["before-kick:"+fin.Reentry]++
+	}
 	for _, rc := range recs {
 		if rc.Err != "" {
 			continue
 		}
-		c := 0
-		if rc.Play {
-			c = 1
-		}
-		ps := pos[[3]int{c, rc.Writer, rc.Seq}]
+		ps := pos[[3]int{cls(rc), rc.Writer, rc.Seq}]
 		if len(ps) != 1 {
 			continue
 		}
@@ -467,6 +745,9 @@ func checkStream(r *lib.Run, desc map[string]any, startID int, stream []byte, re
 				classified = true
 				if rc.Play {
 					nHeld++
+					if ph.Reentry != "" && rc.Ret < ph.ReCall && p > mp {
+						st.heldAcrossReentry++
+					}
 					// H
 					if p < mp {
 						r.Violation("play-packet-delivered-during-config", fmt.Sprintf("play-only packet w%d#%d written while in configuration was delivered before the configuration ended", rc.Writer, rc.Seq), wit(map[string]any{"write": rc}))
@@ -483,7 +764,9 @@ func checkStream(r *lib.Run, desc map[string]any, startID int, stream []byte, re
 					nDirect++
 					// I
 					if p > mp {
-						r.Violation("config-packet-delayed", fmt.Sprintf("config-valid packet w%d#%d written during configuration was delayed past its end", rc.Writer, rc.Seq), wit(map[string]any{"write": rc}))
+						r.Violation("config-packet-delayed", fmt.Sprintf("%s packet w%d#%d %s written during configuration was delayed past its end", kindOf(rc), rc.Writer, rc.Seq, rc.Type), wit(map[string]any{"write": rc}))
+					} else if rc.Type != "" {
+						st.typedInConfig[rc.Type]++
 					}
 				}
 			}
@@ -495,6 +778,9 @@ func checkStream(r *lib.Run, desc map[string]any, startID int, stream []byte, re
 					inPlay = false
 				}
 			}
+			if fin.Present && rc.Ret > fin.CfgCall {
+				inPlay = false
+			}
 			if inPlay {
 				nDirect++
 			} else {
@@ -502,9 +788,9 @@ func checkStream(r *lib.Run, desc map[string]any, startID int, stream []byte, re
 			}
 		}
 	}
-	*held += int64(nHeld)
-	*direct += int64(nDirect)
-	*racing += int64(nRacing)
+	st.held += int64(nHeld)
+	st.direct += int64(nDirect)
+	st.racing += int64(nRacing)
 	b := func(n int) string {
 		switch {
 		case n == 0:
@@ -516,5 +802,11 @@ func checkStream(r *lib.Run, desc map[string]any, startID int, stream []byte, re
 		}
 		return "many"
 	}
-	return fmt.Sprintf("held=%s direct=%s racing=%s phases=%d", b(nHeld), b(nDirect), b(nRacing), len(phases))
+	re := 0
+	for _, ph := range phases {
+		if ph.Reentry != "" {
+			re++
+		}
+	}
+	return fmt.Sprintf("held=%s direct=%s racing=%s phases=%d reentered=%d", b(nHeld), b(nDirect), b(nRacing), len(phases), re)
 }
